@@ -72,8 +72,9 @@ Init == /\ heap = SubSeq(InitHeap.h, 1, Len(InitHeap.h)) /\ root = InitHeap.root
 
 (* ----------------------- pieces of straight-line code ------------------- *)
 \* Every piece maps a thread record s (and the heap h it sees) to the record at the thread's next lock call site.
-\* top of insert(k, hints): root creation loop, hint check, or descent from the root
-StartInsert(s, rt, t) == [s EXCEPT !.pc = IF rt = 0 THEN "r_tsw" ELSE IF UseHints[t] /\ s.hint # 0 THEN "h_sr" ELSE "rl_sr"]
+\* top of insert(k, hints): root creation loop, hint check, or descent from the root.  insert(k) without hints runs on a
+\* local operation_hints object, so a restart after a failed upgrade goes through the hint check there as well.
+StartInsert(s, rt, t) == [s EXCEPT !.pc = IF rt = 0 THEN "r_tsw" ELSE IF s.hint # 0 THEN "h_sr" ELSE "rl_sr"]
 Return(s, b) == [s EXCEPT !.pc = "op", !.ip = @ + 1, !.res = Append(@, b)]
 \* the search inside node s.cur, up to the next lock operation
 Desc(s, h) ==
@@ -126,7 +127,7 @@ FoundOK(k) == /\ aset' = aset /\ err' = IF k \notin aset THEN "reported present 
 Same == UNCHANGED <<aset, err>>
 
 Begin(t) == /\ Pc(t, "op") /\ th[t].ip <= Len(Prog[t])
-            /\ Upd(t, StartInsert([th[t] EXCEPT !.k = Prog[t][th[t].ip]], root, t))
+            /\ Upd(t, StartInsert([th[t] EXCEPT !.k = Prog[t][th[t].ip], !.hint = IF UseHints[t] THEN @ ELSE 0], root, t))
             /\ UNCHANGED <<heap, root, rootVer>> /\ Same
 Finish(t) == /\ Pc(t, "op") /\ th[t].ip > Len(Prog[t])
              /\ Upd(t, [th[t] EXCEPT !.pc = "done"]) /\ UNCHANGED <<heap, root, rootVer>> /\ Same
